@@ -41,7 +41,8 @@ REQUIRED = ('streets_completed', 'draw_rounds_checked', 'burns_checked',
             'discard_probes', 'board_sizes_checked',
             'multi_board_streets', 'street_validation_probes',
             'mixed_facing_draws',
-            'interleave_points')
+            'interleave_points',
+            'forks')
 
 CUSTOMS = ('kuhn', 'draw5', 'stud5', 'greek', 'courchevel', 'holdem8',
            'plo8', 'badugi1', 'razzdraw', 'random', 'studdraw')
@@ -412,6 +413,8 @@ def gen_kwargs(rng):
 
 
 def pol_tweak(pol, cfg, rng):
+    if rng.random() < 0.4:
+        pol['fork_p'] = 0.03     # continue on a deepcopy mid-hand
     pol['policy'] = rng.choice(['passive', 'passive', 'uniform', 'foldy',
                                 'allin', 'drawheavy'])
     if pol['deal'] == 'default' and rng.random() < 0.5:
